@@ -31,16 +31,61 @@ def _sh(t):
 def run(rep, tier):
     cx = Ctx(rep, "std")
     F = cx.F
-    ra = rep.rule("R13.a", "mnemonic table == reference table (names, instruction types, base opcodes)", floor=92)
-    tab, src = asmmodel.mnemonic_table(F)
+    ra = rep.rule("R13.a", "every documented mnemonic, fed through the assembler's own name resolution with an accepted operand shape, yields the instruction(s) the reference table prescribes; with a wrong shape, an error", floor=92)
+    ru = rep.rule("R13.u", "names outside the documented set (documented names with a suffix, prefix, letter dropped or in upper case) resolve to an error and emit nothing", floor=150)
     ref = asmmodel.reference_table()
-    if tab is None:
-        rep.ob(ra, "fold", False, "constant folding of the mnemonic table", expected="a literal map", found=src)
+    tab, src = asmmodel.mnemonic_table(F)
+    rep.info("folded_table", "%d entries" % len(tab) if tab is not None else "not a literal map: %s" % (src,))
+    if asmmodel.internal_entry(F) is None:
+        rep.ob(ra, "entry", False, "the function turning parsed instructions into Insn values", expected="fn(&[Instruction]) -> Result<Vec<Insn>, String>", found="not found")
         return
-    rep.analysed(src)
-    for name in sorted(set(tab) | set(ref)):
-        rep.ob(ra, "mnemonic=%s" % name, tab.get(name) == ref.get(name), "mnemonic `%s`" % name,
-               expected=ref.get(name), found=tab.get(name), sample=(name in ("add", "ldxw", "be16")))
+    evr = symex.Evaluator(F)
+    evr.unroll = True
+    for name, (itype, payload, base) in sorted(ref.items()):
+        valid = [sh for sh in asmmodel.SHAPES if asmmodel.expected_insns(itype, payload, base, sh) is not None]
+        shapes = asmmodel.SHAPES if tier == "thorough" else valid + [sh for sh in ((), ("R", "R", "R")) if sh not in valid]
+        probs = []
+        for sh in shapes:
+            exp = asmmodel.expected_insns(itype, payload, base, sh)
+            r = asmmodel.resolve(F, evr, name, sh)
+            if r is None:
+                probs.append("%s: not evaluable" % ("".join(sh) or "-"))
+                continue
+            oks = [x for x in r if x["res"] == "Ok"]
+            odd = [x for x in r if x["res"] in ("panic", "?")]
+            tag = "".join(sh) or "-"
+            if odd:
+                probs.append("%s: a path neither Ok nor Err (%s)" % (tag, odd[0]["res"]))
+            if exp is None:
+                if oks:
+                    probs.append("%s: accepted, emits opcode %s" % (tag, _sh(oks[0]["insns"][0].get("opc")) if oks[0]["insns"] else "nothing"))
+            elif not oks:
+                probs.append("%s: rejected" % tag)
+            else:
+                for x in oks:
+                    if len(x["insns"]) != len(exp) or not all(asmmodel.same_insn(g, e) for g, e in zip(x["insns"], exp)):
+                        got = x["insns"][0] if x["insns"] else {}
+                        diff = {k: (_sh(got.get(k)), _sh(e)) for k, e in exp[0].items() if got.get(k) != e}
+                        probs.append("%s: %d instruction(s), fields (found, expected) %s" % (tag, len(x["insns"]), diff))
+                        break
+        rep.ob(ra, "mnemonic=%s" % name, not probs, "mnemonic `%s` (%s, base opcode %#04x)" % (name, itype, base),
+               expected="the reference instruction for accepted shapes, Err otherwise", found=probs[:3] or "%d shapes agree" % len(shapes),
+               sample=(name in ("add", "ldxw", "be16")))
+    probes = set()
+    for name in ref:
+        cands = [name + "64", name[:-1]] if tier != "thorough" else [name + "64", name + "32", name + "x", "x" + name, name[:-1], name[1:], name.upper()]
+        for c in cands:
+            if c and c not in ref:
+                probes.add(c)
+    probes |= {"", "0", "r1", "64"}
+    probes.discard("")
+    for c in sorted(probes):
+        acc = []
+        for sh in ((), ("R",), ("R", "I"), ("R", "R")):
+            r = asmmodel.resolve(F, evr, c, sh) or []
+            if any(x["res"] != "Err" or x["insns"] for x in r) or not r:
+                acc.append("".join(sh) or "-")
+        rep.ob(ru, "name=%s" % c, not acc, "undocumented name `%s`" % c, expected="Err, nothing emitted", found=("accepted with shapes %s" % acc) if acc else "Err")
 
     rb = rep.rule("R13.b", "encode: operand placement per (instruction type, operand shape)", floor=14 * 20)
     rc = rep.rule("R13.c", "accepted operand ranges == field widths", floor=16)
@@ -171,7 +216,7 @@ def run(rep, tier):
 
     # R13.h the operand grammar must give input back when a register turns out to be a mnemonic
     rh = rep.rule("R13.h", "an instruction without operands can be followed by a mnemonic that starts like a register: the register alternative of `operand` must backtrack (combine commits once input is consumed)", floor=1)
-    okh, foundh = asmmodel.register_vs_mnemonic(F, tab)
+    okh, foundh = asmmodel.register_vs_mnemonic(F, ref)
     conflict, noop = foundh["mnemonics starting with r"], foundh["operand-less mnemonics"]
     rep.ob(rh, "register-vs-mnemonic", okh,
            "`%s` followed by `%s ...`: after the operand-less instruction the parser tries `operand`, `register` consumes the `r` and fails on the next letter" % ((noop or ["?"])[0], (conflict or ["?"])[0]),
